@@ -397,9 +397,26 @@ def run(ctx):
     except Exception as e:
         n_p6 = 0
         gen_err.append(('profile6_inst', repr(e)))
-    pr = vlib.coq_props('C11', extra_targets=['proofs/PolyEvalTac.vo'])
-    ctx.cov.update(obligations=len(pr['theorems']) + n_p6, discharged=(pr['discharged'] + n_p6) if pr['ok'] else 0,
-                   theorems=pr['theorems'], axioms=pr['axioms'],
+    # the per-instance theorems (Interval `integral`) live outside props/C11.v (coqchk closure); recompiled on every run
+    inst = 'proofs/C11Instances.v'
+    try:
+        os.remove(os.path.join(vlib.COQ, inst + 'o'))
+    except OSError:
+        pass
+    if not ctx.quick:        # thorough: re-prove the fixed profile 6 instances too (35 s)
+        try:
+            os.remove(os.path.join(vlib.COQ, 'gen', 'Profile6Inst.vo'))
+        except OSError:
+            pass
+    pr = vlib.coq_props('C11', extra_targets=['proofs/PolyEvalTac.vo', inst + 'o'])
+    # instance goals are counted only when they were really compiled in this run
+    inst_thms = vlib.theorems_in(inst) if ('COQC ' + inst) in pr['log'] else []
+    n_p6_run = n_p6 if 'COQC gen/Profile6Inst.v' in pr['log'] else 0
+    ctx.cov['instance_goals_from_an_earlier_build_not_counted'] = n_p6 - n_p6_run
+    n_p6_total, n_p6 = n_p6, n_p6_run
+    ctx.cov.update(obligations=len(pr['theorems']) + len(inst_thms) + n_p6,
+                   discharged=(pr['discharged'] + len(inst_thms) + n_p6) if pr['ok'] else 0,
+                   theorems=pr['theorems'], instance_theorems=inst_thms, axioms=pr['axioms'],
                    checker_cmd='make -C /verif/coq props/C11.vo (coqc 8.16.1, full .vo build) + Print Assumptions; '
                                'per-instance goals: coqc cases/C11_*.v (Interval 4.6: interval, integral; vm_compute)',
                    trusted_base=vlib.TRUSTED_COMMON + [
@@ -420,7 +437,7 @@ def run(ctx):
                        correspondence=dict(translation_validation_goals=tv['goals'], translation_validation_ok=tv['ok'],
                                            object_q_checks=cb['q_items'], object_q_ok=cb['q_ok'], object_goals=cb['goals'],
                                            object_goals_ok=cb['g_ok'], profile6_random_instances=p6['goals'],
-                                           profile6_fixed_instances=n_p6),
+                                           profile6_fixed_instances=n_p6_total, profile6_fixed_instances_compiled_this_run=n_p6),
                        per_instance_goals=tv['goals'] + cb['goals'] + p6['goals'] + n_p6)
     budget = (8 if ctx.quick else 70) * (4 if (broken or corr_bad) else 1)
     hits, n_eval, n_distinct = search(ctx, rng, budget)
